@@ -347,6 +347,11 @@ def register_late():
     except ImportError:
         pass
     try:
+        import insnvec_unit
+        UNITS['insnvec'] = dict(run=verus_unit(insnvec_unit.generate))
+    except ImportError:
+        pass
+    try:
         import verifier_unit
         UNITS['verifier'] = dict(run=verus_unit(verifier_unit.generate))
     except ImportError:
